@@ -16,6 +16,7 @@ KANI_ASSUMPTIONS = [
     "kani::assume(pre) in harnesses is the contract's precondition; each harness carries cover points that must be SATISFIED (checked on every run)",
     "base allocators in pointer-level harnesses are models of a conforming allocator (LogAlloc / fixed buffers); a base allocator violating the Allocator contract is out of scope",
     "Kani has no unwinding semantics: clauses about panics/unwinding are not covered",
+    "h_stub obligations (growable collections) replace the arena by StubBump, an executable statement of the allocator traits' contract (kani/incrate/h_stub.rs): the collections are proved against that contract; that the real arena refines it is decided only as far as the arena obligations go (ob_bump_alloc, ob_realloc, ob_deallocate, ob_prepared_slice*, ob_mut_vec*: blocks inside owned memory, aligned, disjoint; grow/shrink keep the prefix; a refused request changes nothing; prepared slices span the free space and commit len <= cap elements)",
 ]
 
 HOOK_COMMITS = ["0d1b28c", "7f73fb6", "70da98a"]
@@ -74,8 +75,8 @@ PROPS = {
         level="other",
         technique="error-path postconditions with a nondeterministically failing / refusing base allocator on the real alloc slow path, grow/shrink, alloc_try_with, unallocated first chunk; overflow arithmetic proved by Verus; Kani's built-in panic freedom",
         claim="Size computations: None exactly on mathematical overflow, never wrap (Verus, all inputs). Allocation paths instantiated with E=AllocError: a refused chunk yields Err (a reachable panic would be a failed CBMC check), no chunk is leaked, the invariant holds, every previously allocated byte stays allocated and unchanged, the arena keeps working (bounded K<=3).",
-        note="Collections' try_* methods are covered under C08/C06 where built; 'a panicking method never returns' rests on Infallible being uninhabited (type system) and is not separately checked here.",
-        not_covered=["try_ methods of the growable collections beyond what C08 covers", "panicking twins (E=Infallible) not instantiated"],
+        note="Growable collections (BumpVec, BumpString, MutBumpVec, MutBumpVecRev): every try_ growth method is checked against the allocator contract stub with requests served, refused, and a new chunk refused, reserve amounts over the full usize range (h_stub). 'a panicking method never returns' rests on Infallible being uninhabited (type system) and is not separately checked here.",
+        not_covered=["panicking twins (E=Infallible) not instantiated", "MutBumpString, alloc_fmt* (core::fmt exhausts CBMC)", "failure inside a Clone / iterator callback (no unwinding semantics)"],
     ),
     "C10": dict(
         level="other",
@@ -130,22 +131,22 @@ PROPS = {
         level="other",
         technique="per-operation refinement contracts against std::vec::Vec from an arbitrary symbolic vector state (fixed buffer), checked by Kani",
         claim="BumpBox<[T]> (remove, swap_remove, pop, truncate, clear, retain, dedup; drain for every range consumed from either end; split_off for every range; partition, map_in_place, into_flattened) and FixedBumpVec (try_push, try_insert / remove / swap_remove at every index, try_extend_from_slice_copy, try_extend_from_within_copy for every range, try_resize to every length, dedup_by_key, retain, split_off for every range incl. capacities, capacity, is_full) return the same values and leave the same contents/length as std::vec::Vec - for every symbolic state with len<=4 / capacity 5 (symbolic-shape obligations) or for every index and range of the concrete lengths 0..6 with symbolic element values (concrete-shape obligations); MutBumpVec / MutBumpVecRev push + into_slice (see C15); capacity >= len; fixed vectors never change address/capacity and report an error when full keeping their contents; ZST capacity is usize::MAX. Because the precondition is 'any state', not 'a state built by the harness', this extends to operation sequences by induction.",
-        note="Bounded: lengths <=6, element type u8. BumpVec (growth through Allocator::grow) is NOT covered - a harness over a real arena did not finish in 25 minutes; splice, extract_if contents, append, shrink_to_fit, out-of-range panics are not covered.",
-        not_covered=["BumpVec and its growth / capacity promises; MutBumpVec(Rev) beyond push/into_slice", "splice, extract_if (contents), append, shrink_to_fit, into_* conversions", "panics on out-of-range arguments"],
+        note="Bounded: lengths <=6, element type u8. BumpVec / MutBumpVec / MutBumpVecRev growth, capacity promises (reserve over the full usize range, no reallocation while the capacity suffices), shrink_to_fit, shrink_to, into_boxed_slice, into_fixed_vec, split_off, into_iter, append, extend_from_within are covered against the allocator CONTRACT stub (h_stub; over a real arena CBMC does not finish); splice, extract_if contents, append, shrink_to_fit, out-of-range panics are not covered.",
+        not_covered=["splice, extract_if (contents), map, from_iter*", "panics on out-of-range arguments of the vector types", "growable collections over the real arena (only against the contract stub)"],
     ),
     "C06": dict(
         level="other",
         technique="drop-counting element type whose Drop asserts 'never twice'; per-operation contracts on BumpBox<[T]> and its iterators, checked by Kani for panic-free executions",
         claim="Drop-counting element type on BumpBox<[Tok]>: clear, truncate, remove, swap_remove, pop, retain, into_iter (both ends) with a symbolic length <=3; split_off (parts dropped in either order), drain consumed k elements then dropped, drain consumed from the back then keep_rest (kept elements in order), extract_if partially consumed, dedup_by for EVERY range of lengths 2..4: each element is dropped exactly once, a removed value is not dropped before the caller drops it, leak / into_raw drop nothing. Zero-sized element type with a counting Drop: drain / split_off / truncate / into_iter for every range of lengths 2,3,5: the number of drops equals the number of elements. One defect found by the zero-sized obligation and fixed (known_findings.txt).",
         note="Panic-free executions only: neither verifier has unwinding semantics, so every clause about a callback that panics mid-operation is out of reach. Consumption of iterators over ZERO-SIZED elements cannot be exercised (CBMC reports a spurious memset precondition for mem::zeroed::<ZST>()). FixedBumpVec/BumpVec/MutBumpVec(Rev) wrappers, splice, map(_in_place), append, resize, extend are not covered. Kani leaves 23 internal side checks (ptr::offset_from on drained ranges) UNDETERMINED in the drain obligations; all contract clauses are decided.",
-        not_covered=["every panic-injection clause", "growable vectors and their iterators; splice, map, append, resize, extend", "consuming iterators over zero-sized elements"],
+        not_covered=["every panic-injection clause (a Clone / closure that panics mid-operation: Kani has no unwinding, so drop guards never run)", "splice, map, append, resize, extend of the growable vectors (growth by push, refused push, remove and drop ARE covered in h_stub)", "consuming iterators over zero-sized elements"],
     ),
     "C09": dict(
         level="other",
         technique="per-operation refinement contracts against std::string::String over symbolic UTF-8 text with a concrete byte-length pattern, every index enumerated, checked by Kani; independent UTF-8 validator cross-checked against core::str::from_utf8",
         claim="For text of up to two characters with every combination of UTF-8 lengths (1-4 bytes each; all scalar values of those lengths symbolic) BumpBox<str>::{truncate, split_off, remove, pop} at every boundary index return the same characters and leave the same bytes as std::string::String, and the contents stay valid UTF-8; every out-of-range or non-boundary index makes truncate/split_off/remove panic (never return); FixedBumpString::{try_insert, try_insert_str, try_push_str, try_replace_range} succeed iff the result fits the fixed capacity, equal String on success and leave the contents unchanged on failure; BumpBox::from_utf8 accepts exactly what core::str::from_utf8 accepts (all byte strings of length 2-4).",
-        note="Bounded: <=2 characters (<=8 bytes), the length pattern is concrete per obligation (a symbolic pattern did not finish in CBMC). BumpString / MutBumpString (growth), retain, drain, extend_from_within, from_utf16(_lossy), from_utf8_lossy, formatting, C-string constructors and UTF-8 validity after a panic are NOT covered.",
-        not_covered=["BumpString / MutBumpString", "retain, drain, extend_from_within, from_utf8_lossy, from_utf16(_lossy), formatting, alloc_cstr* / into_cstr", "validity after an operation that panicked (no unwinding semantics)", "texts longer than two characters"],
+        note="Bounded: <=2 characters (<=8 bytes), the length pattern is concrete per obligation (a symbolic pattern did not finish in CBMC). BumpString growth (try_push, try_push_str, try_insert, try_insert_str, try_extend_from_within, try_replace_range, try_reserve, shrink_to_fit; bad indices panic) is covered against the allocator contract stub (h_stub). MutBumpString, retain, drain, extend_from_within, from_utf16(_lossy), from_utf8_lossy, formatting, C-string constructors and UTF-8 validity after a panic are NOT covered.",
+        not_covered=["MutBumpString", "retain, drain, extend_from_within, from_utf8_lossy, from_utf16(_lossy), formatting, alloc_cstr* / into_cstr", "validity after an operation that panicked (no unwinding semantics)", "texts longer than two characters"],
     ),
 }
 
